@@ -60,24 +60,6 @@ Definition http_obs_ok (g obs : verdict) : bool :=
    (computed from the abstract message) is the model's reference *)
 Definition byte_ofZ (z : Z) : byte := byte_of_N (Z.to_N z).
 
-Definition s4_ref_b (cfg : socks4_cfg) (m : socks4_msg) : bool :=
-  (bN (s4_vn m) =? 4)%N &&
-  existsb (N.eqb (bN (s4_cd m))) (s4_commands cfg) &&
-  (negb (nonempty (s4_ports cfg)) || existsb (N.eqb (s4_port m)) (s4_ports cfg)) &&
-  (negb (nonempty (s4_cidrs cfg)) ||
-   existsb (fun c => negb (c_is6 c) && (c_bits c <=? 32)%N &&
-                     (N.shiftr (s4_ip m) (32 - c_bits c) =? N.shiftr (c_addr c) (32 - c_bits c))%N) (s4_cidrs cfg)).
-
-Definition s5_ref_b (auth : list N) (m : socks5_msg) : bool :=
-  (bN (s5_ver m) =? 5)%N && (1 <=? length (s5_methods m))%nat &&
-  forallb (fun x => existsb (N.eqb (bN x)) auth) (s5_methods m).
-
-Definition pg_ref_b (m : pg_msg) : bool :=
-  match m with
-  | PgSSLRequest => true
-  | PgStartup maj _ ps => (3 <=? maj)%N && nonempty ps
-  end.
-
 Definition check (c : mscase) : bool :=
   match c with
   | MS MHttp inp obs big => http_obs_ok (http_gate (unhex inp)) obs && negb big
@@ -89,10 +71,10 @@ Definition check (c : mscase) : bool :=
   | KRefS4 cmds ports cidrs vn cd port ip user inp ref =>
       let m := {| s4_vn := byte_ofZ vn; s4_cd := byte_ofZ cd; s4_port := Z.to_N port; s4_ip := Z.to_N ip; s4_user := unhex user |} in
       let cfg := {| s4_commands := map Z.to_N cmds; s4_ports := map Z.to_N ports; s4_cidrs := map mk_cidr cidrs |} in
-      bytes_eqb (socks4_encode m) (unhex inp) && Bool.eqb (s4_ref_b cfg m) ref
+      bytes_eqb (socks4_encode m) (unhex inp) && Bool.eqb (socks4_ref_b cfg m) ref
   | KRefS5 auth ver methods inp ref =>
       let m := {| s5_ver := byte_ofZ ver; s5_methods := unhex methods |} in
-      bytes_eqb (socks5_encode m) (unhex inp) && Bool.eqb (s5_ref_b (map Z.to_N auth) m) ref
+      bytes_eqb (socks5_encode m) (unhex inp) && Bool.eqb (socks5_ref_b (map Z.to_N auth) m) ref
   | KRefPg ssl maj min params inp ref =>
       let m := if ssl then PgSSLRequest
                else PgStartup (Z.to_N maj) (Z.to_N min) (map (fun kv => (unhex (fst kv), unhex (snd kv))) params) in
